@@ -421,7 +421,7 @@ theorem applyOp_other {T now : Nat} {td : TD κ ν} (hwf : td.WF) {k : κ} (op :
 
 /-- Lemma C: an access at `now` (no timer due) puts the death time into `[now+T, now+2T]` -/
 theorem accessed_deathTime_self {T now : Nat} {td : TD κ ν} {k : κ} {v : ν}
-    (hl : alookup k td.items = some v) (hnd : ∀ d, td.deadline = some d → now < d)
+    (hl : alookup k td.items = some v) (hnd : ∀ d, td.deadline = some d → now ≤ d)
     (hb : td.Bounded T now) :
     ∃ D, (td.accessed T now k).deathTime T k = some D ∧ now + T ≤ D ∧ D ≤ now + 2 * T := by
   unfold accessed
@@ -489,6 +489,53 @@ theorem lifetime_aux {T D : Nat} {k : κ} (rest : List (Nat × Op κ ν)) :
     exact ih (linv_apply h hc.1 op (hne (u, op) (List.mem_cons_self))) hc.2
       (fun q hq => hne q (List.mem_cons_of_mem _ hq)) t'
       (fun q hq => hle q (List.mem_cons_of_mem _ hq)) hu
+
+theorem runOps_append (T : Nat) (td : TD κ ν) (a b : List (Nat × Op κ ν)) :
+    runOps T td (a ++ b) = runOps T (runOps T td a) b := by
+  induction a generalizing td with
+  | nil => rfl
+  | cons p r ih => obtain ⟨u, op⟩ := p; simp [runOps, ih]
+
+theorem apply_wf_bounded {T now u : Nat} {td : TD κ ν} (hwf : td.WF) (hb : td.Bounded T now)
+    (hle : now ≤ u) (op : Op κ ν) : (td.apply T u op).WF ∧ (td.apply T u op).Bounded T u := by
+  rw [apply_eq]
+  exact ⟨applyOp_wf (advance_wf hwf u) op, applyOp_bounded (advance_bounded hb hle) op⟩
+
+theorem runOps_wf_bounded {T : Nat} (ops : List (Nat × Op κ ν)) :
+    ∀ {td : TD κ ν} {now : Nat}, td.WF → td.Bounded T now → Chain now ops → ∀ t,
+      (∀ p ∈ ops, p.1 ≤ t) → now ≤ t → (runOps T td ops).WF ∧ (runOps T td ops).Bounded T t := by
+  induction ops with
+  | nil => intro td now hwf hb _ t _ hle; exact ⟨hwf, bounded_mono hb hle⟩
+  | cons p r ih =>
+    intro td now hwf hb hc t ht hle
+    obtain ⟨u, op⟩ := p
+    obtain ⟨h1, h2⟩ := apply_wf_bounded hwf hb hc.1 op
+    exact ih h1 h2 hc.2 t (fun q hq => ht q (List.mem_cons_of_mem _ hq)) (ht (u, op) List.mem_cons_self)
+
+/-- a successful access (`set`, or `get` of a present key) at `t > 0·T` starts the invariant -/
+theorem linv_of_access {T t : Nat} (hT : 0 < T) {td : TD κ ν} {k : κ} (hwf : td.WF)
+    (hb : td.Bounded T t) (op : Op κ ν)
+    (hop : (∃ v, op = .set k v) ∨ (op = .get k ∧ (td.advance T t).present k = true)) :
+    ∃ D, t + T ≤ D ∧ D ≤ t + 2 * T ∧ LInv T (td.apply T t op) t k D := by
+  have hwf' := advance_wf hwf (T := T) t
+  have hb' := advance_bounded hb (Nat.le_refl t)
+  have hnd : ∀ d, (td.advance T t).deadline = some d → t ≤ d :=
+    fun d hd => Nat.le_of_lt (advance_not_due T t td d hd)
+  rw [apply_eq]
+  rcases hop with ⟨v, rfl⟩ | ⟨rfl, hp⟩
+  · simp only [applyOp, set]
+    obtain ⟨D, hD, h1, h2⟩ := accessed_deathTime_self (T := T) (now := t) (k := k) (v := v)
+      (td := { td.advance T t with items := ainsert k v (td.advance T t).items })
+      (alookup_ainsert_self _ _ _) hnd hb'
+    exact ⟨D, h1, h2, accessed_wf _ _ _ _,
+      accessed_bounded (td := { td.advance T t with items := ainsert k v (td.advance T t).items }) hb' _,
+      Or.inl ⟨hD, by omega⟩⟩
+  · simp only [applyOp, get]
+    cases hl : alookup k (td.advance T t).items with
+    | none => simp [present, hl] at hp
+    | some v =>
+      obtain ⟨D, hD, h1, h2⟩ := accessed_deathTime_self (T := T) hl hnd hb'
+      exact ⟨D, h1, h2, accessed_wf _ _ _ _, accessed_bounded hb' _, Or.inl ⟨hD, by omega⟩⟩
 
 end TD
 end Aiocoap.BwServer
